@@ -34,3 +34,23 @@ Section MaskOps.
   (* np.stack((a, b), axis=1) *)
   Definition stack_cols (a b : list A) : list (A * A) := combine a b.
 End MaskOps.
+
+(* ---- the per-kind loaders: the exported device dictionary is the record bdev; dictionary reads become field reads ---- *)
+Section LoadOps.
+  Context {A : Type} `{Num A}.
+  Local Open Scope num_scope.
+  (* -1 * table *)
+  Definition table_neg (t : list (A * A)) : list (A * A) := map (fun ab => (- fst ab, - snd ab)) t.
+  (* (bounds[:,0] != bounds[:,1]).all() *)
+  Definition cols_all_differ (t : list (A * A)) : bool := forallb (fun ab => negb (fst ab =? snd ab)) (combine (map fst t) (map snd t)).
+  (* device_kit.<Class>(device_id, basis, bounds, cbounds, **params): the constructor's low <= high test, then the loaded record *)
+  Definition construct_id (id : String.string) (c : lclass) (t : list (A * A)) (cb : option (list (cbound A)))
+             (ps : list (String.string * A)) (clip : option A * option A) : outcome (loaded A) :=
+    if valid_bounds t then Accept {| l_id := id; l_class := c; l_bounds := t; l_cb := cb; l_params := ps; l_clip := clip |}
+    else RaiseValueError.
+  (* d['parameters'][k] when present *)
+  Definition pget (k : String.string) (ps : list (String.string * A)) : option A := assoc k ps.
+  (* { m[k]: v for k, v in items if k in m } *)
+  Definition remap (m : list (String.string * String.string)) (ps : list (String.string * A)) : list (String.string * A) :=
+    flat_map (fun kv => match assoc (fst kv) m with Some k' => [(k', snd kv)] | None => [] end) ps.
+End LoadOps.
